@@ -665,7 +665,7 @@ func WriteFile(spec FileSpec) ([]byte, error) {
 			var nvals, usize int64
 			var dictIdx map[string]int
 			dictOff := int64(-1)
-			if ch.Feature == "dict" || ch.Feature == "dict-rle" {
+			if ch.Feature == "dict" || ch.Feature == "dict-rle" || ch.Feature == "dict-plain" {
 				dictIdx = map[string]int{}
 				var dvals []Val
 				for _, p := range ch.Pages {
@@ -699,7 +699,11 @@ func WriteFile(spec FileSpec) ([]byte, error) {
 			}
 			dataOff := int64(len(out))
 			for _, p := range ch.Pages {
-				b, pu, err := encodePage(ch, p, dictIdx)
+				di := dictIdx
+				if ch.Feature == "dict-plain" {
+					di = nil // the writer fell back to PLAIN right away: the dictionary page is there but unused
+				}
+				b, pu, err := encodePage(ch, p, di)
 				if err != nil {
 					return nil, fmt.Errorf("column %s: %v", ch.Col.Name(), err)
 				}
